@@ -59,7 +59,7 @@ Definition obs_reading (o : sobs) : list N := concat (map fo_data (o_files o)).
 Definition opkind (x : xop) : N :=
   match x with
   | XOp (Write _ _ _ _ _ _ _ _) => 1 | XOp (Reopen _) => 2 | XOp (ExtRename _) => 3 | XOp (Pause _) => 4
-  | XRmDir _ => 5 | XRmActive _ => 6 | XAppend _ _ _ => 8 | XUnformatted _ => 9
+  | XRmDir _ => 5 | XRmActive _ => 6 | XAppend _ _ _ => 8 | XUnformatted _ => 9 | XChmod _ _ _ => 10 | XNewSink _ => 11
   end%N.
 
 (* An event whose formatted value is empty has no bytes: it is acknowledged, it makes the sink open and rotate like any other
@@ -108,7 +108,7 @@ Section Case.
        (if negb (special c) && N.eqb (maxFiles c) 0 && negb (eqNl r ackd) then [KLoss] else [])
      else (if forallb (fun x => N.eqb x 0 || known_writer writers x) r && writers_ok false r 0 counts then [] else [KOrder]) ++
           (if N.eqb (maxFiles c) 0 && negb (writers_ok true r 0 counts) then [KLoss] else [])) ++
-    (if forallb (fun f => N.eqb (fo_mode f) (eff_mode c)) (o_files ob) then [] else [KModeSpec]) ++
+    (if removed || forallb (fun f => N.eqb (fo_mode f) (eff_mode c)) (o_files ob) then [] else [KModeSpec]) ++   (* an external chmod may linger *)
     (match dm0, dirgone with
      | Some _, false => []
      | _, _ => if N.eqb (o_dir ob) 0 || N.eqb (o_dir ob) dirMode then [] else [KDirSpec]   (* the sink made (or re-made) it *)
@@ -136,7 +136,7 @@ Section Case.
         let '(w', ok, _) := xstep3 c w x in
         let o := xop_clock x in
         let nren' := match x with XOp (ExtRename _) => N.succ nren | _ => nren end in
-        let removed' := match x with XOp _ | XUnformatted _ => removed | _ => true end in
+        let removed' := match x with XOp _ | XUnformatted _ | XNewSink _ => removed | _ => true end in
         let dirgone' := match x with XRmDir _ => true | _ => dirgone end in
         match ob with
         | None =>
